@@ -164,7 +164,7 @@ func step(ctx context.Context, client lungo.IClient, k int, seed int64, errs *[]
 	r := &rng{s: uint64(seed)*1000003 + uint64(k)*7919}
 	db := client.Database("app")
 	items := db.Collection("items")
-	logs := db.Collection("logs")
+	logs := db.Collection("audit.logs.v2") // a collection name with dots (like GridFS's fs.files): it must come back under the same name
 	pad := strings.Repeat("p", 40+r.next(400))
 	_, err = items.InsertOne(ctx, bson.D{{Key: "_id", Value: int32(k)}, {Key: "v", Value: int64(k*10 + r.next(7))}, {Key: "s", Value: fmt.Sprintf("item-%d", k)},
 		{Key: "pad", Value: pad}, {Key: "sub", Value: bson.D{{Key: "a", Value: bson.A{int32(1), "x", nil}}, {Key: "f", Value: 1.5 + float64(k)}}}})
@@ -440,6 +440,7 @@ func runFail(dir string, n int, seed int64, k int, after bool, mode string) (fc 
 	fs.last = dumpCatalog(engine.Catalog()).sha()
 	fs.mem = fs.last
 	fc.LaterOK = true
+	var sess *lungo.Session
 	for c := 1; c <= n; c++ {
 		before := fs.calls
 		var cerr error
@@ -466,18 +467,23 @@ func runFail(dir string, n int, seed int64, k int, after bool, mode string) (fc 
 				}
 			}
 		} else if mode == "session" {
-			_ = client.UseSession(context.Background(), func(sc lungo.ISessionContext) error {
-				if err := sc.StartTransaction(); err != nil {
-					cerr = err
-					return nil
+			// one session for the whole history: after a commit that the store rejected it is used again
+			if sess == nil {
+				s0, err := client.StartSession()
+				if err != nil {
+					util.Die("session: %v", err)
 				}
-				if err := step(sc, client, c, seed, nil); err != nil {
-					_ = sc.AbortTransaction(sc)
-					return nil
-				}
-				cerr = sc.CommitTransaction(sc)
-				return nil
-			})
+				sess = s0.(*lungo.Session)
+				defer sess.EndSession(context.Background())
+			}
+			sc := lungo.VerifSessionContext(context.Background(), sess)
+			if err := sess.StartTransaction(); err != nil {
+				cerr = err
+			} else if err := step(sc, client, c, seed, nil); err != nil {
+				_ = sess.AbortTransaction(context.Background())
+			} else {
+				cerr = sess.CommitTransaction(context.Background())
+			}
 		} else {
 			// every driver call is its own commit
 			ctx, cancel := context.WithTimeout(context.Background(), 15*time.Second)
